@@ -367,14 +367,14 @@ void capacityCase(Ctx& ctx, int which, int mode)
 	if (got.size() > exp.out.size() || std::memcmp(got.data(), exp.out.data(), got.size()) != 0) { ctx.violation("C04/capacity/delivered-bytes-not-a-prefix", key, std::to_string(got.size()) + " vs " + std::to_string(exp.out.size())); return; }
 	// bytes still in the 4 KiB window, and bytes already copied inside the call that raised the error, are lost to the caller
 	if (got.size() + chunk + 4096 + 64 < exp.out.size()) { ctx.violation("C04/capacity/error-raised-early", key, "delivered " + std::to_string(got.size()) + " of " + std::to_string(exp.out.size())); return; }
-	// nothing is delivered after the error
-	std::size_t before = got.size();
-	for (int i = 0; i < 3; ++i) {
+	// decoding does not continue after the error: whatever further calls still hand out (bytes decoded before the refused
+	// update may be pending) continues the reference output of the accepted codes and never goes beyond it
+	for (int i = 0; i < 64; ++i) {
 		std::size_t m = 0;
 		auto o = mc::guarded([&] { m = step(); });
-		if (o.cls == 'R' && m != 0) { ctx.violation("C04/capacity/data-delivered-after-the-error", key, std::to_string(m) + " bytes"); return; }
+		if (o.cls == 'X') { ctx.violation("C04/capacity/non-std-exception", key, ""); return; }
+		if (got.size() > exp.out.size() || std::memcmp(got.data(), exp.out.data(), got.size()) != 0) { ctx.violation("C04/capacity/data-delivered-after-the-error", key, "after the error the decoder went on to deliver " + std::to_string(got.size()) + " bytes; the accepted codes produce " + std::to_string(exp.out.size())); return; }
 	}
-	(void)before;
 	ctx.count("capacity/over-long-streams");
 	ctx.state(); ctx.trace();
 }
